@@ -10,8 +10,8 @@ def sh(cmd, cwd, timeout=3000):
     p = subprocess.run(cmd, shell=True, cwd=cwd, stdout=subprocess.PIPE, stderr=subprocess.STDOUT, text=True, timeout=timeout)
     return p.returncode, p.stdout
 
-def main(pid, demo_override=None):
-    wt = f"/tmp/mut_{pid}"
+def main(pid, demo_override=None, prefix="mut_", suffix=""):
+    wt = f"/tmp/{prefix}{pid}"
     mut = f"{wt}/MUTANT"
     meta = json.load(open(f"{mut}/meta.json"))
     demo = demo_override or meta["demo_command"]
@@ -44,7 +44,7 @@ def main(pid, demo_override=None):
     ok = all(res.values())
     print(pid, res)
     if ok:
-        dst = f"/verif/seeded/{pid}"
+        dst = f"/verif/seeded/{pid}{suffix}"
         os.makedirs(dst, exist_ok=True)
         for f in os.listdir(mut):
             shutil.copy(f"{mut}/{f}", dst)
@@ -53,4 +53,11 @@ def main(pid, demo_override=None):
     return res
 
 if __name__ == "__main__":
-    main(sys.argv[1], sys.argv[2] if len(sys.argv) > 2 else None)
+    import argparse
+    ap = argparse.ArgumentParser()
+    ap.add_argument("pid")
+    ap.add_argument("--demo")
+    ap.add_argument("--prefix", default="mut_")
+    ap.add_argument("--suffix", default="")
+    a = ap.parse_args()
+    main(a.pid, a.demo, a.prefix, a.suffix)
